@@ -425,7 +425,7 @@ def try_resume(scn, img, d, steps=1, monitors=True):
     run() slice; returns None or (problem, message)"""
     from . import monitors as M
     materialise(img, d)
-    path = os.path.join(d, 'ck.h5')
+    path = os.path.join(d, 'ck' + scn['ext'])
     try:
         with np.errstate(all='ignore'):
             s = scn.build(filepath=path, resume=True)
